@@ -41,18 +41,60 @@ Theorem derived_from_satisfying_credential : forall v p creds d w,
             c_id (w_cred w) = c_id c /\ c_issuer (w_cred w) = c_issuer c /\ c_subject (w_cred w) = c_subject c.
 Proof.
   intros v p creds d w [c [N [[S K] D]]]. exists c. repeat split; auto;
-    destruct D as [[_ [k [_ E]]]|[_ [E _]]]; rewrite E; reflexivity.
+    destruct D as [[_ [k [_ [[_ E]|[_ [_ E]]]]]]|[_ [E _]]]; rewrite E; reflexivity.
 Qed.
 Print Assumptions derived_from_satisfying_credential.
 
-(* Limited disclosure: under limit_disclosure = required the disclosed credential's credentialSubject members
-   are all named by a path of one of the descriptor's fields (the mandatory members id/type/issuer/... are the
-   other record fields of the model and carry no claims). *)
-Theorem limited_disclosure_only_requested : forall v p creds d w k,
+(* Limited disclosure, FULL statement: under limit_disclosure = required every credentialSubject leaf of the
+   disclosed credential is named by a path of one of the descriptor's fields (the mandatory members id / type /
+   issuer / issuanceDate / subject id are the other record fields of the model and carry no claims).
+   REFUTED for the code as it is: a credential whose subject the holder keeps as a map (not the form
+   ParseCredential produces) goes into the template whole (toSubject), known finding
+   limit-disclosure-reveals-unrequested-member/subject-held-as-map, pinned by the package's example tests. *)
+Definition limited_only_requested_statement : Prop := forall v p creds d w k,
   derives v p creds d w -> d_constraints d = Some k -> k_limit k = true ->
   forall a, In a (map fst (c_attrs (w_cred w))) -> exists f, In f (k_fields k) /\ In a (f_paths f).
+
+Definition raw_cred : cred :=
+  {| c_id := 1; c_issuer := 50; c_subject := 50; c_types := [1]; c_proofs := []; c_jwt := 0; c_sd := false;
+     c_rawsubj := true; c_attrs := [(1, VStr 1); (2, VNum 5)] |}.
+Definition limit_a1 : desc :=
+  {| d_id := 1; d_groups := []; d_schema := [(1, false)];
+     d_constraints := Some {| k_limit := true; k_sii := false;
+        k_fields := [{| f_paths := [1]; f_filter := None; f_optional := false; f_pred := false |}] |};
+     d_format := None |}.
+
+Theorem limited_disclosure_only_requested_refuted : ~ limited_only_requested_statement.
+Proof.
+  intros H.
+  set (k := {| k_limit := true; k_sii := false;
+               k_fields := [{| f_paths := [1]; f_filter := None; f_optional := false; f_pred := false |}] |}).
+  set (w := {| w_key := KTmp 1 0; w_src := 0%nat; w_cred := limited_cred k raw_cred |}).
+  assert (D : derives Fixed {| p_format := None; p_reqs := []; p_descs := [limit_a1] |} [raw_cred] limit_a1 w).
+  { exists raw_cred. split; [reflexivity|]. split.
+    - split; [intros _; reflexivity|]. intros k' Hk. inversion Hk; subst. reflexivity.
+    - left. split; [reflexivity|]. exists k. split; [reflexivity|]. left. split; reflexivity. }
+  destruct (H _ _ _ _ _ k D eq_refl eq_refl 2) as [f [F1 F2]]; [vm_compute; auto|].
+  destruct F1 as [F1|[]]. subst f. destruct F2 as [F2|[]]. discriminate.
+Qed.
+Print Assumptions limited_disclosure_only_requested_refuted.
+
+(* PARTIAL, guard = the holder's credential has the subject in the parsed form (c_rawsubj = false): plain LDP / JWT
+   credentials (field copy) and SD-JWT credentials (disclosure selection) *)
+Theorem limited_disclosure_only_requested_partial : forall v p creds d w k,
+  derives v p creds d w -> d_constraints d = Some k -> k_limit k = true ->
+  (forall c, nth_error creds (w_src w) = Some c -> c_rawsubj c = false) ->
+  forall a, In a (map fst (c_attrs (w_cred w))) -> exists f, In f (k_fields k) /\ In a (f_paths f).
 Proof. exact limited_lemma. Qed.
-Print Assumptions limited_disclosure_only_requested.
+Print Assumptions limited_disclosure_only_requested_partial.
+
+(* SD-JWT form: the limited credential opens exactly the leaves of the holder's credential that a field path
+   names, by leaf (position), with their values: a leaf with the same claim name at another level is a different
+   key and stays closed *)
+Theorem sdjwt_limited_exactly_requested : forall k c kv,
+  In kv (c_attrs (sd_limited k c)) <-> In kv (c_attrs c) /\ requested k (fst kv) = true.
+Proof. exact sd_limited_exact. Qed.
+Print Assumptions sdjwt_limited_exactly_requested.
 
 (* The solution iterator: every set returned by Next satisfies the requirement and consists of descriptors the
    iterator still holds (fuel exhaustion is a separate outcome, None). *)
@@ -85,7 +127,7 @@ Definition dsimple (i : N) (g : list N) : desc :=
   {| d_id := i; d_groups := g; d_schema := [(1, false)];
      d_constraints := Some {| k_limit := false; k_sii := false; k_fields := [fconst i (Z.of_N i)] |}; d_format := None |}.
 Definition csimple (id : N) (attrs : list (N * jv)) : cred :=
-  {| c_id := id; c_issuer := 50; c_subject := 60; c_types := [1]; c_proofs := []; c_jwt := 0; c_attrs := attrs |}.
+  {| c_id := id; c_issuer := 50; c_subject := 60; c_types := [1]; c_proofs := []; c_jwt := 0; c_sd := false; c_rawsubj := false; c_attrs := attrs |}.
 
 Definition pick_one_of_two : defn :=
   {| p_format := None; p_reqs := [SFrom false 1 0 0 1]; p_descs := [dsimple 1 [1]; dsimple 2 [1]] |}.
@@ -127,7 +169,7 @@ Example accepts_nonvacuous :
               p_reqs := [SNested true 0 0 0 [SFrom false 1 0 0 1; SFrom false 0 1 0 2]];
               p_descs := [dsimple 1 [1]; dsimple 2 [1]; dl] |} in
   let creds := [csimple 11 [(2, VNum 2); (9, VStr 1)];
-                {| c_id := 12; c_issuer := 50; c_subject := 60; c_types := [1]; c_proofs := []; c_jwt := 1;
+                {| c_id := 12; c_issuer := 50; c_subject := 60; c_types := [1]; c_proofs := []; c_jwt := 1; c_sd := false; c_rawsubj := false;
                    c_attrs := [(7, VNum 17); (8, VNum 30); (9, VStr 4)] |}] in
   NoDup (map d_id (p_descs p)) /\ unique_ids creds /\
   exists x, create_vp Fixed p creds = COk x /\
@@ -141,3 +183,18 @@ Proof.
       inversion Hi; inversion Hj; subst; discriminate.
   - eexists. split; [vm_compute; reflexivity|]. vm_compute. repeat split. eexists. split; reflexivity.
 Qed.
+
+(* non-vacuity, SD-JWT: the claim name a1 at two levels (keys 1 and 501), a nested array (502); the descriptor asks
+   for o5.a1 under limited disclosure; a second descriptor without limit gets the full credential *)
+Example sdjwt_nonvacuous :
+  let dl := {| d_id := 1; d_groups := []; d_schema := [(1, false)];
+               d_constraints := Some {| k_limit := true; k_sii := false;
+                  k_fields := [{| f_paths := [501]; f_filter := None; f_optional := false; f_pred := false |}] |};
+               d_format := None |} in
+  let p := {| p_format := None; p_reqs := []; p_descs := [dl; dsimple 2 []] |} in
+  let creds := [{| c_id := 7; c_issuer := 50; c_subject := 60; c_types := [1]; c_proofs := []; c_jwt := 1; c_sd := true;
+                   c_rawsubj := false; c_attrs := [(1, VStr 1); (2, VNum 2); (501, VStr 2); (502, VArr 7)] |}] in
+  exists x, create_vp Fixed p creds = COk x /\
+            map c_attrs (vp_creds x) = [[(501, VStr 2)]; [(1, VStr 1); (2, VNum 2); (501, VStr 2); (502, VArr 7)]] /\
+            exists l, verifier_match Fixed p false x = MOk l /\ map fst l = [1; 2].
+Proof. cbv zeta. eexists. split; [vm_compute; reflexivity|]. vm_compute. split; [reflexivity|]. eexists. split; reflexivity. Qed.
